@@ -181,7 +181,7 @@ PROPS.update({
         rule="chain shapes x connect permutations/orientations x channel placement x both directions x send / send_in; distinct = distinct "
              "program hash; non-trivial = a chain of >= 3 gates exists and at least one message was sent",
         fault_probes=["illegal_connect_rejected"],
-        expected_probes=["illegal_connect_rejected", "chain_of_three_or_more_gates", "delayed_send", "hop_with_channel"],
+        expected_probes=["illegal_connect_rejected", "chain_of_three_or_more_gates", "delayed_send", "hop_with_channel", "offer_over_a_link_connected_at_run_time"],
         assumptions=["jitter 0 on all channels of C08 scenarios", "sampled, not exhaustive"]),
     "C12": net_prop(
         level_text="Seeded exploration: module trees (depth <= 4, fan-out <= 5, prefix-sharing names) inserted in random valid orders with 1..4 "
